@@ -1,21 +1,21 @@
 import Driver.Loop
 import OPM.Model.Wire
 import OPM.Model.SaveConc
-import OPM.Gen.SaveLock
 namespace Driver.SaveConc
 open OPM OPM.Wire OPM.SaveConc
 
-/-- ops:  `init <v0>`              → fresh state at version v0; the system (locked / not) is the one the translator
-                                     read from the source (`OPM.Gen.SaveLock.lockAcrossAwait`)
-          `initm <v0>`             → same with the *other* system (mutant for the self-test)
+/-- ops:  `init <v0> <locked 0/1> <reset 0/1>` → fresh state at version v0 in the system variant the harness measured on
+                                     the real handler (lock across the round trip? version reset on re-registration?)
+          `initm <v0> <locked> <reset>` → same with the lock bit flipped (mutant for the self-test)
+          `disconnect` | `register` → the engine's connection drops / the engine registers again
           `start <id> <base>`      → a save request enters
           `reply <id> <ok 0/1>`    → the engine's answer to the pending round trip of save <id> arrives
     answer: the canonical state, or `bad-op` (ill-formed line / event not enabled). -/
 structure St where
-  locked : Bool
+  cfg : Cfg
   s : State
 
-def init : St := ⟨OPM.Gen.SaveLock.lockAcrossAwait, OPM.SaveConc.init 0⟩
+def init : St := ⟨{}, OPM.SaveConc.init 0⟩
 
 def showIds (l : List Req) : String := showNatList (l.map (·.id))
 
@@ -27,7 +27,7 @@ def showOutcome : Outcome → String
 def semi (l : List String) : String := if l.isEmpty then "-" else ";".intercalate l
 
 def render (s : State) : String :=
-  "v=" ++ toString s.version ++
+  "v=" ++ (if s.registered then toString s.version else "-") ++
   " owner=" ++ (match s.owner with | some i => toString i | none => "-") ++
   " await=" ++ showIds s.awaiting ++
   " wait=" ++ showIds s.waiters ++
@@ -37,25 +37,33 @@ def render (s : State) : String :=
 
 def step (st : St) (line : String) : St × String :=
   match fields line with
-  | ["init", v] =>
-    match v.toNat? with
-    | some v => let st' : St := ⟨OPM.Gen.SaveLock.lockAcrossAwait, OPM.SaveConc.init v⟩; (st', render st'.s)
+  | ["init", v, l, r] =>
+    match v.toNat?, parseBool l, parseBool r with
+    | some v, some l, some r => let st' : St := ⟨⟨l, r⟩, OPM.SaveConc.init v⟩; (st', render st'.s)
+    | _, _, _ => (st, "bad-op")
+  | ["initm", v, l, r] =>
+    match v.toNat?, parseBool l, parseBool r with
+    | some v, some l, some r => let st' : St := ⟨⟨!l, r⟩, OPM.SaveConc.init v⟩; (st', render st'.s)
+    | _, _, _ => (st, "bad-op")
+  | ["disconnect"] =>
+    match OPM.SaveConc.step st.cfg st.s .disconnect with
+    | some s' => ({ st with s := s' }, render s')
     | none => (st, "bad-op")
-  | ["initm", v] =>
-    match v.toNat? with
-    | some v => let st' : St := ⟨!OPM.Gen.SaveLock.lockAcrossAwait, OPM.SaveConc.init v⟩; (st', render st'.s)
+  | ["register"] =>
+    match OPM.SaveConc.step st.cfg st.s .register with
+    | some s' => ({ st with s := s' }, render s')
     | none => (st, "bad-op")
   | ["start", i, b] =>
     match i.toNat?, b.toNat? with
     | some i, some b =>
-      match OPM.SaveConc.step st.locked st.s (.start i b) with
+      match OPM.SaveConc.step st.cfg st.s (.start i b) with
       | some s' => ({ st with s := s' }, render s')
       | none => (st, "bad-op")
     | _, _ => (st, "bad-op")
   | ["reply", i, ok] =>
     match i.toNat?, parseBool ok with
     | some i, some ok =>
-      match OPM.SaveConc.step st.locked st.s (.reply i ok) with
+      match OPM.SaveConc.step st.cfg st.s (.reply i ok) with
       | some s' => ({ st with s := s' }, render s')
       | none => (st, "bad-op")
     | _, _ => (st, "bad-op")
